@@ -37,22 +37,20 @@ def main(args=None) -> int:
             return 0
         case "set":
             source = parse(args.file.read())
-            print(
-                set_value(
-                    source=source,
-                    npath=args.npath,
-                    value=args.value,
-                )
+            result = set_value(
+                source=source,
+                npath=args.npath,
+                value=args.value,
             )
+            print(result, end="" if result.endswith("\n") else "\n")
             return 0
         case "rm":
             source = parse(args.file.read())
-            print(
-                remove_value(
-                    source=source,
-                    npath=args.npath,
-                )
+            result = remove_value(
+                source=source,
+                npath=args.npath,
             )
+            print(result, end="" if result.endswith("\n") else "\n")
             return 0
         case "test":
             original = args.file.read()
